@@ -105,6 +105,13 @@ def _accumulation(loop: ast.For, name: str, kind: str):
             and isinstance(cur.value.func.value, ast.Name) and cur.value.func.value.id == name and len(cur.value.args) == 1 and not cur.value.keywords \
             and cur.value.func.attr == ("append" if kind == "list" else "add") and not _mentions(cur.value.args[0], name) and not isinstance(cur.value.args[0], ast.Starred):
         return cur.value.args[0], gens
+    # X.extend(E) / X.update(E): one more generator over E
+    if kind in ("list", "set") and isinstance(cur, ast.Expr) and isinstance(cur.value, ast.Call) and isinstance(cur.value.func, ast.Attribute) \
+            and isinstance(cur.value.func.value, ast.Name) and cur.value.func.value.id == name and len(cur.value.args) == 1 and not cur.value.keywords \
+            and cur.value.func.attr == ("extend" if kind == "list" else "update") and not _mentions(cur.value.args[0], name) and not isinstance(cur.value.args[0], ast.Starred):
+        var = "each_"
+        gens.append(ast.comprehension(target=ast.Name(id=var, ctx=ast.Store()), iter=cur.value.args[0], ifs=[], is_async=0))
+        return ast.Name(id=var, ctx=ast.Load()), gens
     if kind == "dict" and isinstance(cur, ast.Assign) and len(cur.targets) == 1 and isinstance(cur.targets[0], ast.Subscript) and isinstance(cur.targets[0].value, ast.Name) \
             and cur.targets[0].value.id == name and not _mentions(cur.targets[0].slice, name) and not _mentions(cur.value, name):
         return (cur.targets[0].slice, cur.value), gens
@@ -147,6 +154,7 @@ def loops_to_comprehensions(fn, stats: Dict[str, int]) -> None:
                                         new = ast.Assign(targets=[prev.targets[0]], value=comp, type_comment=None)
                                         ast.copy_location(new, st)
                                         ast.copy_location(comp, st)
+                                        ast.fix_missing_locations(new)
                                         b[i] = new
                                         del b[j]
                                         stats["loop2comp"] += 1
